@@ -18,6 +18,9 @@ for **every** expression, context, document and amount of fuel.
 | `member_maps` | `coll.name` = `coll.select($.name)` |
 | `fuel_mono` | more fuel never changes a definite outcome |
 | `empty_frame_invisible` | a frame that binds nothing cannot be observed (why the model may elide the call frames of pure builtins) |
+| `let_names_verbatim`, `kwarg_names_verbatim`, `def_names_verbatim` | names are data: a binding is visible exactly under its own normal form |
+| `def_call_own_args`, `def_call_pure`, `def_calls_independent`, `def_then_call` | a call of a `def`-ined function is the body on the argument VALUES of that call: equal values give equal results, and nothing of an earlier call (its arguments, its result) occurs in a later one |
+| `def_identity_faithful`, `def_identity_injective` | arguments are handed over as they are: `1`, `true`, `1.0` stay three values |
 
 ## For the properties that build on this (C09 context clause, C18)
 
@@ -882,6 +885,159 @@ theorem closure_lexical_args (n : Nat) (C1 C2 : Ctx) (f : Name) (args : List Exp
     (hk : evalList (eval n) C1 (kw.map (·.2)) = evalList (eval n) C2 (kw.map (·.2))) :
     eval (n + 1) C1 (.ucall f args kw) = eval (n + 1) C2 (.ucall f args kw) := by
   simp only [eval_succ, step, hf, ha, hk]
+
+/-! ## calls of a `def`-ined function are pure: no memory between calls
+
+A call of a `def`-ined function is `eval n (argFrame vs kvs :: D) body`: a function of the definition (`body`, the
+defining context `D`) and of the argument VALUES of *this* call - of nothing else.  There is no state a call could leave
+behind for the next one (no result table, no argument frame kept from an earlier activation), and the arguments are
+`Value`s compared structurally: `1`, `true` and `1.0` (`Value.int 1`, `Value.bool true`, `Value.flt 0x3FF0000000000000`)
+are three different arguments although the host language's `==` (the model's `pyEq`) identifies them.  The names of the
+keyword arguments are data as well (`kwarg_names_verbatim`): `value`, `self`, `context`, `engine`, `receiver`, `args`,
+`kwargs` are keywords like `x`. -/
+
+/-- what one call of a `def`-ined function is: the body in a child of the DEFINING context that binds the values of this
+    call's own arguments -/
+def defApply (n : Nat) (D : Ctx) (body : Expr) (vs : VL) (kvs : List (Name × Value)) : R Obj :=
+  eval n (argFrame vs kvs :: D) body
+
+/-- **the result of a call is determined by its own arguments**: whatever the call site `C` binds, whatever was called
+    before, whichever expressions produced the argument values -/
+theorem def_call_own_args (n : Nat) (C : Ctx) (f : Name) (args : List Expr) (kw : List (Expr × Expr))
+    (body : Expr) (D : Ctx) (names : List Name) (vs kvs : VL)
+    (h : C.getFun (fnKey f) = some (body, D)) (hn : kwNames kw = .ok names)
+    (ha : evalList (eval n) C args = .ok vs) (hk : evalList (eval n) C (kw.map (·.2)) = .ok kvs) :
+    eval (n + 1) C (.ucall f args kw) = defApply n D body vs (names.zip kvs) := by
+  rw [ucall_eq n C f args kw body D h, hn, ha, hk]
+  rfl
+
+/-- **`def_call_pure`**: two calls of a `def`-ined function (any two call sites that resolve to the same definition, any
+    argument expressions, any spelling of the name up to trailing underscores) whose arguments have the same VALUES and
+    the same keyword names return the same result - exceptions and lazy results included -/
+theorem def_call_pure (n : Nat) (C1 C2 : Ctx) (f1 f2 : Name) (args1 args2 : List Expr) (kw1 kw2 : List (Expr × Expr))
+    (body : Expr) (D : Ctx)
+    (h1 : C1.getFun (fnKey f1) = some (body, D)) (h2 : C2.getFun (fnKey f2) = some (body, D))
+    (hn : kwNames kw1 = kwNames kw2)
+    (ha : evalList (eval n) C1 args1 = evalList (eval n) C2 args2)
+    (hk : evalList (eval n) C1 (kw1.map (·.2)) = evalList (eval n) C2 (kw2.map (·.2))) :
+    eval (n + 1) C1 (.ucall f1 args1 kw1) = eval (n + 1) C2 (.ucall f2 args2 kw2) := by
+  rw [ucall_eq n C1 f1 args1 kw1 body D h1, ucall_eq n C2 f2 args2 kw2 body D h2, hn, ha, hk]
+
+/-- `callFn_def` congruence at the level of programs: `def(f, body) -> f(a1, .., an)` is the body on exactly these
+    values, for every body, every values, every context -/
+theorem def_then_call (n : Nat) (C : Ctx) (f : Name) (body : Expr) (vs : VL) :
+    eval (n + 4) C (.arrow (.call .def_ [.kw f, body] []) (.ucall f (vs.map .lit) [])) =
+      defApply (n + 2) ({ funs := [(fnKey f, body)] } :: C) body vs [] := by
+  have hdef : eval (n + 3) C (.call .def_ [.kw f, body] []) = .ok (.ctx ({ funs := [(fnKey f, body)] } :: C)) := by
+    simp only [eval_succ, step, callFn_def]; rfl
+  rw [eval_succ (n + 3)]
+  simp only [step, hdef, ok_bind]
+  rw [def_call_own_args (n + 2) ({ funs := [(fnKey f, body)] } :: C) f (vs.map .lit) [] body
+    ({ funs := [(fnKey f, body)] } :: C) [] vs [] (by simp [Ctx.getFun, alookup]) rfl (evalList_lits (n + 1) _ vs) rfl]
+  rfl
+
+/-- two calls side by side, `[f(a), f(b)]`: the second is the body on `b` - the first call (its argument `a`, its
+    result) does not occur in it.  A result table keyed by the arguments, or an argument frame kept from the first
+    activation, would make the second component depend on `a`. -/
+theorem def_calls_independent (n : Nat) (C : Ctx) (f : Name) (body : Expr) (D : Ctx) (a b : Value)
+    (h : C.getFun (fnKey f) = some (body, D)) :
+    eval (n + 3) C (.list [.ucall f [.lit a] [], .ucall f [.lit b] []]) = (do
+      let x ← defApply (n + 1) D body [a] []
+      let vx ← toV x
+      let y ← defApply (n + 1) D body [b] []
+      let vy ← toV y
+      pure (.val (.tuple [vx, vy]))) := by
+  have hc : ∀ v : Value, eval (n + 2) C (.ucall f [.lit v] []) = defApply (n + 1) D body [v] [] := fun v =>
+    def_call_own_args (n + 1) C f [.lit v] [] body D [] [v] [] h rfl (evalList_lits n C [v]) rfl
+  rw [eval_succ (n + 2)]
+  simp only [step, evalList, hc]
+  cases defApply (n + 1) D body [a] [] with
+  | error e => rfl
+  | ok x =>
+    simp only [ok_bind]
+    cases toV x with
+    | error e => rfl
+    | ok vx =>
+      simp only [ok_bind]
+      cases defApply (n + 1) D body [b] [] with
+      | error e => rfl
+      | ok y =>
+        simp only [ok_bind]
+        cases toV y with
+        | error e => rfl
+        | ok vy => rfl
+
+/-- the `def`-ined identity hands back its argument ITSELF, for every value: `f(1)` is `1`, `f(true)` is `true`, `f(1.0)` is
+    `1.0` - not "a value equal to it" -/
+theorem def_identity_faithful (n : Nat) (C D : Ctx) (f : Name) (v : Value) (hv : hasIter v = false)
+    (h : C.getFun (fnKey f) = some (.var ['$'], D)) :
+    eval (n + 2) C (.ucall f [.lit v] []) = .ok (.val v) := by
+  rw [def_call_own_args (n + 1) C f [.lit v] [] (.var ['$']) D [] [v] [] h rfl (evalList_lits n C [v]) rfl]
+  exact lambda_dollar n D v [] hv
+
+/-- ... so calls with different argument values are told apart, however "equal" the host language finds the values -/
+theorem def_identity_injective (n : Nat) (C D : Ctx) (f : Name) (v w : Value) (hv : hasIter v = false)
+    (hw : hasIter w = false) (h : C.getFun (fnKey f) = some (.var ['$'], D))
+    (he : eval (n + 2) C (.ucall f [.lit v] []) = eval (n + 2) C (.ucall f [.lit w] [])) : v = w := by
+  rw [def_identity_faithful n C D f v hv h, def_identity_faithful n C D f w hw h] at he
+  injection he with he
+  injection he
+
+/-- 1, true and 1.0 are equal for the host language (`pyEq`) and three different values of the language -/
+example : Value.pyEq (.int 1) (.bool true) = true ∧ Value.pyEq (.int 1) (.flt 0x3FF0000000000000) = true ∧
+    Value.pyEq (.int 0) (.flt 0x8000000000000000) = true ∧
+    Value.int 1 ≠ Value.bool true ∧ Value.int 1 ≠ Value.flt 0x3FF0000000000000 ∧
+    Value.bool true ≠ Value.flt 0x3FF0000000000000 ∧ Value.flt 0 ≠ Value.flt 0x8000000000000000 := by
+  refine ⟨by decide, by decide, by decide, ?_, ?_, ?_, ?_⟩ <;> intro h <;> cases h
+
+-- replay on the model of the demonstrations of two seeded changes (notes/C04.md, round 4)
+-- (a) a result table keyed by the arguments: `def(f, [$]) -> [f(1), f(true), f(1.0)]`
+example : run 20 .null (.arrow (.call .def_ [.kw ['f'], .list [.var ['$']]] [])
+    (.list [.ucall ['f'] [.lit (.int 1)] [], .ucall ['f'] [.lit (.bool true)] [], .ucall ['f'] [.lit (.flt 0x3FF0000000000000)] []])) =
+    .ok (.data (.list [.tuple [.int 1], .tuple [.bool true], .tuple [.flt 0x3FF0000000000000]])) := rfl
+-- `def(f, $) -> $.select(f($))` on `[0, false, 1, true]`
+example : run 20 (.tuple [.int 0, .bool false, .int 1, .bool true])
+    (.arrow (.call .def_ [.kw ['f'], .var ['$']] []) (.method (.var ['$']) .select [.ucall ['f'] [.var ['$']] []] [])) =
+    .ok (.data (.list [.int 0, .bool false, .int 1, .bool true])) := rfl
+-- `def(f, {v => $x}) -> [f(x => false), f(x => 0)]`
+example : run 20 .null (.arrow (.call .def_ [.kw ['f'], .map [(.kw ['v'], .var ['$', 'x'])]] [])
+    (.list [.ucall ['f'] [] [(.kw ['x'], .lit (.bool false))], .ucall ['f'] [] [(.kw ['x'], .lit (.int 0))]])) =
+    .ok (.data (.list [.dict [(.str ['v'], .bool false)], .dict [(.str ['v'], .int 0)]])) := rfl
+-- a result holding a lazy sequence is built anew by every call: `def(wrap, [[$].select($ + 1)]) -> [wrap(1), wrap(1)]`
+example : run 20 .null (.arrow (.call .def_ [.kw ['w'], .list [.method (.list [.var ['$']]) .select [.bin .add (.var ['$']) (.lit (.int 1))] []]] [])
+    (.list [.ucall ['w'] [.lit (.int 1)] [], .ucall ['w'] [.lit (.int 1)] []])) =
+    .ok (.data (.list [.tuple [.iter [.int 2]], .tuple [.iter [.int 2]]])) := rfl
+-- `let(k => 3) -> def(f, $.items.where($ > $k)) -> [f($), f($)]` on `{"items": [1, 5, 7]}`
+example : run 20 (.dict [(.str ['i', 't', 'e', 'm', 's'], .tuple [.int 1, .int 5, .int 7])])
+    (.arrow (.call .let_ [] [(.kw ['k'], .lit (.int 3))])
+      (.arrow (.call .def_ [.kw ['f'], .method (.member (.var ['$']) ['i', 't', 'e', 'm', 's']) .where_
+          [.bin .gt (.var ['$']) (.var ['$', 'k'])] []] [])
+        (.list [.ucall ['f'] [.var ['$']] [], .ucall ['f'] [.var ['$']] []]))) =
+    .ok (.data (.list [.iter [.int 5, .int 7], .iter [.int 5, .int 7]])) := rfl
+-- (b) keyword arguments named like the implementation's own parameters: `def(f, $value + 1) -> f(value => 1)`
+example : run 20 .null (.arrow (.call .def_ [.kw ['f'], .bin .add (.var ['$', 'v', 'a', 'l', 'u', 'e']) (.lit (.int 1))] [])
+    (.ucall ['f'] [] [(.kw ['v', 'a', 'l', 'u', 'e'], .lit (.int 1))])) = .ok (.data (.int 2)) := rfl
+-- `def(f, [$context, $engine]) -> f(context => 1, engine => 2)`
+example : run 20 .null (.arrow (.call .def_ [.kw ['f'], .list [.var ['$', 'c', 'o', 'n', 't', 'e', 'x', 't'], .var ['$', 'e', 'n', 'g', 'i', 'n', 'e']]] [])
+    (.ucall ['f'] [] [(.kw ['c', 'o', 'n', 't', 'e', 'x', 't'], .lit (.int 1)), (.kw ['e', 'n', 'g', 'i', 'n', 'e'], .lit (.int 2))])) =
+    .ok (.data (.list [.int 1, .int 2])) := rfl
+-- `def(scale, $ * $receiver) -> $.select(scale($, receiver => 10))` on `[1, 2, 3]`
+example : run 20 (.tuple [.int 1, .int 2, .int 3])
+    (.arrow (.call .def_ [.kw ['s', 'c', 'a', 'l', 'e'], .bin .mul (.var ['$']) (.var ['$', 'r', 'e', 'c', 'e', 'i', 'v', 'e', 'r'])] [])
+      (.method (.var ['$']) .select [.ucall ['s', 'c', 'a', 'l', 'e'] [.var ['$']]
+        [(.kw ['r', 'e', 'c', 'e', 'i', 'v', 'e', 'r'], .lit (.int 10))]] [])) =
+    .ok (.data (.list [.int 10, .int 20, .int 30])) := rfl
+-- `let(value => 5) -> def(f, [$value, $1]) -> [f(7, value => 6), $value]`
+example : run 20 .null (.arrow (.call .let_ [] [(.kw ['v', 'a', 'l', 'u', 'e'], .lit (.int 5))])
+    (.arrow (.call .def_ [.kw ['f'], .list [.var ['$', 'v', 'a', 'l', 'u', 'e'], .var ['$', '1']]] [])
+      (.list [.ucall ['f'] [.lit (.int 7)] [(.kw ['v', 'a', 'l', 'u', 'e'], .lit (.int 6))], .var ['$', 'v', 'a', 'l', 'u', 'e']]))) =
+    .ok (.data (.list [.tuple [.int 6, .int 7], .int 5])) := rfl
+-- `def(f, $self) -> f(self => ok)`
+example : run 20 .null (.arrow (.call .def_ [.kw ['f'], .var ['$', 's', 'e', 'l', 'f']] [])
+    (.ucall ['f'] [] [(.kw ['s', 'e', 'l', 'f'], .kw ['o', 'k'])])) = .ok (.data (.str ['o', 'k'])) := rfl
+-- def_call_pure / def_calls_independent are not vacuous: a context that defines `f`
+example : Ctx.getFun [{ vars := [(['$', 'k'], .int 2)] }, { funs := [(['f'], .list [.var ['$']])] }] (fnKey ['f', '_']) =
+    some (.list [.var ['$']], [{ funs := [(['f'], .list [.var ['$']])] }]) := rfl
 
 /-! ## non-vacuity: concrete instances of the hypotheses above -/
 
